@@ -111,9 +111,17 @@ pub fn run(ftr: &FilesToRead, case: &Value) -> Vec<String> {
     let stride = if small { 1 } else { case["stride"].as_u64().unwrap_or(997) as usize };
     let offset = if small { 0 } else { (case["seed"].as_u64().unwrap_or(1) as usize) % stride };
     // faults: every index (or every stride-th), plus two beyond the end
-    let mut ks: Vec<usize> = (1..=n).filter(|k| (k + offset) % stride == 0 || *k <= 3 || *k + 3 > n).collect();
-    ks.push(n + 1);
-    ks.push(n + 7);
+    // `parts` > 1: this case covers the indices k with k % parts == part (big documents are split over several workers)
+    let parts = case["parts"].as_u64().unwrap_or(1).max(1) as usize;
+    let part = case["part"].as_u64().unwrap_or(0) as usize;
+    let mut ks: Vec<usize> = (1..=n)
+        .filter(|k| (k + offset) % stride == 0 || *k <= 3 || *k + 3 > n)
+        .filter(|k| k % parts == part)
+        .collect();
+    if part == 0 {
+        ks.push(n + 1);
+        ks.push(n + 7);
+    }
     for k in ks {
         // error kinds: rotate through the "other" kinds so that each index sees one, every 5th index all of them
         let mut faults: Vec<(Fault, &str, &str)> = vec![];
@@ -151,6 +159,9 @@ pub fn run(ftr: &FilesToRead, case: &Value) -> Vec<String> {
         ("seeded".to_string(), (0..31).map(|_| rnd()).collect()),
     ];
     for (name, pattern) in patterns {
+        if part != 0 {
+            break;
+        }
         if !small && name == "1" {
             // one byte per call on megabytes of output is slow but still linear; keep it
         }
